@@ -169,7 +169,9 @@ enum Item01 {
 fn items01(tier: Tier) -> Vec<Item01> {
     let q = tier == Tier::Quick;
     let mut v = Vec::new();
-    let ls: Vec<usize> = if q { vec![64, 256] } else { vec![64, 128, 256, 512] };
+    // lengths that are odd multiples of 8 (72, 104, 504) exercise the remainder handling of the
+    // SIMD kernels that the run-time dispatch selects; 200 is 8 mod 16 as well
+    let ls: Vec<usize> = if q { vec![64, 72, 256] } else { vec![64, 72, 104, 128, 200, 256, 504, 512] };
     let variants: Vec<(Interp, usize)> = if q {
         vec![(Interp::Cubic, 256), (Interp::Cubic, 16), (Interp::Quadratic, 64), (Interp::Linear, 512), (Interp::Nearest, 1024)]
     } else {
